@@ -279,6 +279,10 @@ func init() {
 			// a Close (or a Write) that is the first operation to meet a connection fault: parked readers return
 			{Scenario: "mux.faultsend", Params: vx.P("conns", "2"), Bound: b(1, 2), Weight: 5},
 			{Scenario: "mux.readfromclose", Params: vx.P("conns", "1"), Bound: b(2, 4), Weight: 3},
+			// several Reads parked on one stream when it is closed (by the peer, locally, with the session): all return
+			{Scenario: "mux.parkedreaders", Params: vx.P("readers", "3"), Bound: b(1, 2), Weight: 3},
+			// "never a lost tail ... whichever connections the data and the closing notice travel on": a connection lagging by thousands of frames
+			{Scenario: "sesh.lag", Bound: 0, Weight: 3},
 			// a local close of a stream holding 20 MiB unread returns (and its closing frame goes out)
 			{Scenario: "mux.backlog", Params: vx.P("mb", "20", "close", "1"), Bound: b(0, 1), Weight: 4},
 			{Scenario: "mux.readfromclose", Params: vx.P("conns", "2"), Bound: b(2, 3), Weight: 3},
